@@ -34,10 +34,10 @@ Definition nn (l : list (Z * Z)) : list (nat * nat) := map (fun p => (Z.to_nat (
 Definition q8 (l : list Z) : list Qc := map (fun z => Q2Qc (z # 8)) l.
 Definition bin_case (mean : bool) (afs : list (Z * Z)) (sh : list Z) (x : list Z) (o s : list (Z * Z)) :=
   (show_t (bin mean (nn afs) (mkT (nl sh) (q8 x))), show_m (bin_meta (nn afs) (mkM (qcl o) (qcl s)))).
-Definition pad_case (sp : pad_spec) (sh : list Z) (x : list Z) :=
+Definition pad_case (fill : Z) (sp : pad_spec) (sh : list Z) (x : list Z) :=
   let t := mkT (nl sh) x in
   let w := widths_of_spec (shape t) sp in
-  let p := pad 0%Z sp t in
+  let p := pad fill sp t in
   (show_ti p, map (fun ba => (Z.of_nat (fst ba), Z.of_nat (snd ba))) w,
    show_ti (crop_nd (uncrop_specs w) p), show_ti (crop_nd (uncrop_abs_from 0 (shape t) w) p)).
 Definition crop_case (specs : list (Z * (Z * Z))) (sh : list Z) (x : list Z) :=
@@ -50,7 +50,7 @@ Open Scope Z_scope.
 """
 
 PRE_F = """From QV.lib Require Import Prelude FinSum DFT DFT_Float.
-From QV.model Require Import C06_Model.
+From QV.model Require Import C06_Model C06_ModelND.
 From Coq Require Import PrimFloat.
 Fixpoint tab_of (tabs : list (Z * list cf)) (N : nat) : list cf :=
   match tabs with [] => [] | (k, t) :: r => if (k =? Z.of_nat N)%Z then t else tab_of r N end.
@@ -62,6 +62,13 @@ Definition fresample (tabs : list (Z * list cf)) (ams : list (Z * Z)) (isreal : 
   if isreal then mkT (shape t) (map (re cfadd cfmul cfconj fhalf) (data t)) else t.
 Definition rs_case tabs ams isreal sh (x want : list cf) :=
   let t := fresample tabs ams isreal sh x in
+  (zl (shape t), fZZ (maxerr1 (data t) want), fZZ (maxabs1 want), map show_cf (firstn 3 (data t))).
+Definition fpipeline (tabs : list (Z * list cf)) (ams : list (Z * Z)) (isreal : bool) (sh : list Z) (x : list cf) : tensor cf :=
+  let t := pipeline_nd cf0 cf1 cfadd cfmul (ftwf tabs) fNinv
+             (map (fun p => (Z.to_nat (fst p), Z.to_nat (snd p))) ams) (mkT (nl sh) x) in
+  if isreal then mkT (shape t) (map (re cfadd cfmul cfconj fhalf) (data t)) else t.
+Definition ps_case tabs ams isreal sh (x want : list cf) :=
+  let t := fpipeline tabs ams isreal sh x in
   (zl (shape t), fZZ (maxerr1 (data t) want), fZZ (maxabs1 want), map show_cf (firstn 3 (data t))).
 Definition src_case (l : list (Z * Z)) :=
   map (fun p => map show_on (src_bins (Z.to_nat (fst p)) (Z.to_nat (snd p)))) l.
@@ -133,13 +140,43 @@ def make_array(case) -> np.ndarray:
     return a.astype(case["dtype"])
 
 
+SUBCLASSES = {2: ["Dataset2d"], 3: ["Dataset3d"], 4: ["Dataset4d", "Dataset4dstem"]}
+
+
+def gen_cls(r, nd):
+    """the methods are inherited by every Dataset subclass: 40 % of the 2/3/4-D cases run on the subclass of
+    that dimension (Dataset2d / Dataset3d / Dataset4d / Dataset4dstem)"""
+    if nd in SUBCLASSES and r.random() < 0.4:
+        return r.choice(SUBCLASSES[nd])
+    return "Dataset"
+
+
 def dataset_of(case, a=None):
-    from quantem.core.datastructures import Dataset
+    import quantem.core.datastructures as qd
     a = make_array(case) if a is None else a
     nd = a.ndim
     org = [float(frac8(v)) for v in case.get("origin8", [0] * nd)]
     smp = [float(frac8(v)) for v in case.get("sampling8", [8] * nd)]
-    return Dataset.from_array(a.copy(), name="c06", origin=org, sampling=smp, units=["A"] * nd)
+    cls = getattr(qd, case.get("cls") or "Dataset")
+    return cls.from_array(a.copy(), name="c06", origin=org, sampling=smp, units=["A"] * nd)
+
+
+def passed_axes(case):
+    """the axes as handed to the implementation: entries flagged in case["axes_neg"] are written the NumPy way,
+    counted from the last axis (a - ndim); the oracle and the model always use the non-negative axis"""
+    nd = len(case["shape"])
+    neg = case.get("axes_neg") or [False] * len(case["axes"])
+    return [int(a) - nd if g else int(a) for a, g in zip(case["axes"], neg)]
+
+
+def gen_axes_neg(r, k):
+    """15 % of the cases name some (or all) of their axes by negative index"""
+    if r.random() >= 0.15:
+        return None
+    neg = [r.random() < 0.6 for _ in range(k)]
+    if not any(neg):
+        neg[r.randrange(k)] = True
+    return neg
 
 
 def gen_shape(r, ndim=None, max_elems=160, max_len=12):
@@ -215,9 +252,14 @@ def gen_bin_case(r, quick=True):
     elif k == 1 and r.random() < 0.5:
         form = "int"
     o8, s8 = gen_meta(r, nd)
-    return {"kind": "bin", "dtype": dtype, "shape": shape, "data8": d, "data8_im": di, "axes": axes, "factors": facs,
+    case = {"kind": "bin", "dtype": dtype, "shape": shape, "data8": d, "data8_im": di, "axes": axes, "factors": facs,
             "form": form, "reducer": r.choice(["sum", "sum", "mean"]), "origin8": o8, "sampling8": s8,
-            "inplace": r.random() < 0.25}
+            "inplace": r.random() < 0.25, "cls": gen_cls(r, nd)}
+    if form in ("int", "tuple"):
+        neg = gen_axes_neg(r, k)
+        if neg:
+            case["axes_neg"] = neg
+    return case
 
 
 def bin_call(ds, case):
@@ -228,9 +270,9 @@ def bin_call(ds, case):
     elif form == "none-int":
         args = (int(case["factors"][0]), None)
     elif form == "int":
-        args = (int(case["factors"][0]), int(case["axes"][0]))
+        args = (int(case["factors"][0]), passed_axes(case)[0])
     else:
-        args = (tuple(case["factors"]), tuple(case["axes"]))
+        args = (tuple(case["factors"]), tuple(passed_axes(case)))
     if case.get("inplace"):
         r = ds.bin(*args, modify_in_place=True, **kw)
         return ds if r is None else r
@@ -242,6 +284,14 @@ def bin_impl(case, a=None):
     out = bin_call(ds, case)
     return {"array": np.asarray(out.array), "origin": np.asarray(out.origin, dtype=np.float64).tolist(),
             "sampling": np.asarray(out.sampling, dtype=np.float64).tolist()}
+
+
+def bin_seq_impl(case):
+    ds = dataset_of(case)
+    for ax, f in zip(case["axes"], case["factors"]):
+        ds = ds.bin(int(f), axes=int(ax), reducer=case["reducer"])
+    return {"array": np.asarray(ds.array), "origin": np.asarray(ds.origin, dtype=np.float64).tolist(),
+            "sampling": np.asarray(ds.sampling, dtype=np.float64).tolist()}
 
 
 def block_sums(a: np.ndarray, a2f: dict) -> np.ndarray:
@@ -267,8 +317,8 @@ def bin_oracle(case, obs, rerun=None):
     arr = obs["array"]
     want_shape = tuple(a.shape[ax] // a2f[ax] if ax in a2f else a.shape[ax] for ax in range(nd))
     if tuple(arr.shape) != want_shape:
-        bad.append(("bin-shape", "bin%s of shape %s gives shape %s, expected %s (n // f per binned axis)"
-                    % (a2f, list(a.shape), list(arr.shape), list(want_shape))))
+        bad.append(("bin-shape", "bin%s of shape %s%s gives shape %s, expected %s (n // f per binned axis)"
+                    % (a2f, list(a.shape), _axes_note(case), list(arr.shape), list(want_shape))))
         return bad
     sums = block_sums(a, a2f)
     vol = 1
@@ -315,6 +365,18 @@ def bin_oracle(case, obs, rerun=None):
                 bad.append(("bin-centres", "bin factor %d on axis %d: coordinate of binned pixel %d is %s but the mean "
                             "coordinate of its block is %s" % (f, ax, j, no + j * ns, centre)))
                 break
+    # one call over several axes = one call per axis, one after the other (C06_bin_sequential_calls)
+    if rerun is not None and len(a2f) >= 2:
+        seq = bin_seq_impl(case)
+        if case["reducer"] == "sum":
+            same = exact_eq(seq["array"], arr)
+        else:
+            same = close_arr(seq["array"], arr, 2.0 ** -20 if case["dtype"] in ("float32", "complex64") else 2.0 ** -49)[0]
+        if not same or seq["origin"] != obs["origin"] or seq["sampling"] != obs["sampling"]:
+            bad.append(("bin-sequential-calls", "bin%s in one call differs from binning the same axes one call after the "
+                        "other: shapes %s / %s, origin %s / %s, sampling %s / %s, first data difference at %s"
+                        % (a2f, list(arr.shape), list(seq["array"].shape), obs["origin"], seq["origin"], obs["sampling"],
+                           seq["sampling"], _first_diff(seq["array"], arr))))
     # only the trailing remainder is dropped: overwriting it must not change the result
     if rerun is not None and any(a.shape[ax] % a2f[ax] for ax in a2f) and a.size:
         b = a.copy()
@@ -329,6 +391,10 @@ def bin_oracle(case, obs, rerun=None):
             bad.append(("bin-depends-on-dropped-tail", "bin%s: changing only the trailing remainder (index >= (n//f)*f) "
                         "of the binned axes changes the result" % (a2f,)))
     return bad
+
+
+def _axes_note(case):
+    return (" (axes given as %s)" % (passed_axes(case),)) if case.get("axes_neg") else ""
 
 
 def _first_diff(x, y, rel=0.0):
@@ -406,6 +472,8 @@ def check_bin(ctx: Ctx):
         a2f = dict(zip(case["axes"], case["factors"]))
         nondiv = any(case["shape"][a] % f for a, f in a2f.items())
         ctx.dist("bin/dtype=%s" % case["dtype"])
+        ctx.dist("bin/class=%s" % (case.get("cls") or "Dataset"))
+        ctx.dist("bin/axes-named=%s" % ("negative" if case.get("axes_neg") else "non-negative"))
         ctx.dist("bin/ndim=%d" % len(case["shape"]))
         ctx.dist("bin/axes=%s" % ("all" if len(a2f) == len(case["shape"]) else "subset"))
         ctx.dist("bin/factors=%s" % ("non-dividing" if nondiv else "dividing"))
@@ -447,7 +515,15 @@ def gen_pad_case(r):
     d, di = gen_data(r, shape, dtype)
     mode = r.choice(["shape", "shape", "shape", "shape", "int", "pair", "seq"])
     case = {"kind": "pad", "dtype": dtype, "shape": shape, "data8": d, "data8_im": di, "mode": mode,
-            "inplace": r.random() < 0.2}
+            "inplace": r.random() < 0.2,
+            # third crop call of the round trip: only the padded axes are named (axes=...), by non-negative or
+            # by negative index
+            "crop_axes": r.choice(["subset", "subset", "neg", "mixed"]), "cls": gen_cls(r, nd),
+            # np.pad keyword arguments handed through Dataset.pad: any fill must be removed again by the crop
+            "pad_kw": r.choice([None, None, None, "edge", "reflect", "symmetric", "wrap", "linear_ramp", "mean", "empty",
+                                "cv", "cv"])}
+    if case["pad_kw"] == "cv":
+        case["cv"] = r.randint(1, 5)
     if mode == "shape":
         grow = r.random() < 0.85                     # 15 %: some axis asks for less than it has
         case["out"] = [n + r.choice([0, 1, 1, 2, 3, 4, 5]) if (grow or r.random() < 0.5) else max(1, n - r.randint(1, 2))
@@ -478,6 +554,25 @@ def pad_widths_text(case):
     return [tuple(p) for p in case["pw"]]
 
 
+def pad_kwargs(case):
+    m = case.get("pad_kw")
+    if not m:
+        return {}
+    if m == "cv":
+        return {"mode": "constant", "constant_values": int(case["cv"])}
+    return {"mode": m}
+
+
+def pad_fill8(case, part):
+    """fill value of the padding in eighths, or None when the mode does not pad with a constant"""
+    m = case.get("pad_kw")
+    if not m:
+        return 0
+    if m == "cv":
+        return 8 * int(case["cv"]) if part == "re" else 0
+    return None
+
+
 def pad_impl(case):
     ds = dataset_of(case)
     if case["mode"] == "shape":
@@ -488,6 +583,7 @@ def pad_impl(case):
         kw = {"pad_width": tuple(case["pw"])}
     else:
         kw = {"pad_width": tuple(tuple(p) for p in case["pw"])}
+    kw.update(pad_kwargs(case))
     if case.get("inplace"):
         ds.pad(modify_in_place=True, **kw)
         p = ds
@@ -504,7 +600,22 @@ def pad_impl(case):
         obs["rt_abs"] = np.asarray(p.crop(tuple((b, b + n) for (b, a), n in zip(w, case["shape"]))).array).copy()
     except Exception as e:  # noqa
         obs["rt_abs"] = "raises %s: %s" % (type(e).__name__, e)
+    if case.get("crop_axes"):
+        axs, cw = crop_axes_call(case, w)
+        try:
+            obs["rt_axes"] = np.asarray(p.crop(cw, axs).array).copy() if axs else padded
+        except Exception as e:  # noqa
+            obs["rt_axes"] = "raises %s: %s" % (type(e).__name__, e)
     return obs
+
+
+def crop_axes_call(case, w):
+    """crop only the axes that were padded, named explicitly: (axes, crop_widths)"""
+    nd = len(case["shape"])
+    axs = [ax for ax, (b, a) in enumerate(w) if b or a]
+    how = case["crop_axes"]
+    named = [ax - nd if (how == "neg" or (how == "mixed" and i % 2 == 0)) else ax for i, ax in enumerate(axs)]
+    return tuple(named), tuple((w[ax][0], -w[ax][1]) for ax in axs)
 
 
 def pad_oracle(case, obs):
@@ -519,12 +630,16 @@ def pad_oracle(case, obs):
     elif tuple(obs["padded"].shape) != want_shape:
         bad.append(("pad-output-shape", "pad(%s) of shape %s gives shape %s, expected %s"
                     % (case.get("pw", case.get("out")), list(a.shape), list(obs["padded"].shape), list(want_shape))))
-    for nm, form in (("rt_rel", "(before, -after)"), ("rt_abs", "(before, before + n)")):
+    forms = [("rt_rel", "(before, -after)"), ("rt_abs", "(before, before + n)")]
+    if "rt_axes" in obs:
+        forms.append(("rt_axes", "(before, -after) for the padded axes only, axes=%s" % (crop_axes_call(case, w)[0],)))
+    for nm, form in forms:
         rt = obs[nm]
         if isinstance(rt, str) or not exact_eq(rt, a) or rt.dtype != a.dtype:
             bad.append(("pad-crop-roundtrip", "pad(%s) of a %s %s array followed by crop with the pad widths %s given as %s "
                         "does not return the original data: %s" % (
-                            {"output_shape": case["out"]} if case["mode"] == "shape" else {"pad_width": case["pw"]},
+                            dict({"output_shape": case["out"]} if case["mode"] == "shape" else {"pad_width": case["pw"]},
+                                 **pad_kwargs(case)),
                             list(a.shape), case["dtype"], w, form,
                             rt if isinstance(rt, str) else "shape %s, first difference at %s"
                             % (list(rt.shape), _first_diff(rt, a)))))
@@ -542,7 +657,8 @@ def pad_expr(case, part="re"):
         sp = "(PadPair %d%%nat %d%%nat)" % tuple(case["pw"])
     else:
         sp = "(PadSeq (nn %s))" % zpairs(case["pw"])
-    return "pad_case %s %s %s" % (sp, zlist(case["shape"]), zlist(data))
+    fill = pad_fill8(case, part)
+    return "pad_case %d %s %s %s" % (0 if fill is None else fill, sp, zlist(case["shape"]), zlist(data))
 
 
 def arr8(x: np.ndarray, part):
@@ -565,7 +681,12 @@ def pad_correspond(case, obs, v, part):
     mp = (psh, pdata)
     if [(int(b), int(a)) for b, a in mw] != [tuple(p) for p in pad_widths_text(case)]:
         bad.append(("pad-widths-correspondence", "pad widths: property text %s, model %s" % (pad_widths_text(case), mw)))
-    if not ti_equal(obs["padded"], mp, part):
+    if pad_fill8(case, part) is None:
+        # the fill of this np.pad mode is not modelled: shape only (the round trips below do not depend on it)
+        if [int(t) for t in mp[0]] != list(obs["padded"].shape):
+            bad.append(("pad-correspondence", "padded shape (mode %s): implementation %s, model %s"
+                        % (case["pad_kw"], list(obs["padded"].shape), [int(t) for t in mp[0]])))
+    elif not ti_equal(obs["padded"], mp, part):
         bad.append(("pad-correspondence", "padded array (%s part): implementation shape %s, model shape %s; contents differ"
                     % (part, list(obs["padded"].shape), [int(t) for t in mp[0]])))
     if not ti_equal(obs["rt_rel"], mrel, part) or not ti_equal(obs["rt_abs"], mabs, part):
@@ -586,13 +707,18 @@ def gen_crop_case(r):
         b = r.choice([0, 0, 1, 2, r.randint(0, n), -1, -2, n + 1])
         e = r.choice([0, 0, -1, -2, n, n - 1, r.randint(0, n), n + 2, -n - 1])
         cw.append([b, e])
-    return {"kind": "crop", "dtype": dtype, "shape": shape, "data8": d, "data8_im": di, "axes": axes, "cw": cw,
-            "axes_none": k == nd and r.random() < 0.5}
+    case = {"kind": "crop", "dtype": dtype, "shape": shape, "data8": d, "data8_im": di, "axes": axes, "cw": cw,
+            "axes_none": k == nd and r.random() < 0.5, "cls": gen_cls(r, nd)}
+    if not case["axes_none"]:
+        neg = gen_axes_neg(r, k)
+        if neg:
+            case["axes_neg"] = neg
+    return case
 
 
 def crop_impl(case):
     ds = dataset_of(case)
-    out = ds.crop(tuple(tuple(c) for c in case["cw"]), None if case["axes_none"] else tuple(case["axes"]))
+    out = ds.crop(tuple(tuple(c) for c in case["cw"]), None if case["axes_none"] else tuple(passed_axes(case)))
     return np.asarray(out.array)
 
 
@@ -611,6 +737,8 @@ def check_padcrop(ctx: Ctx):
             ctx.violation(key, what, dict(case))
         w = pad_widths_text(case)
         ctx.dist("pad/mode=%s" % case["mode"])
+        ctx.dist("pad/np.pad-mode=%s" % (case.get("pad_kw") or "default"))
+        ctx.dist("pad/class=%s" % (case.get("cls") or "Dataset"))
         ctx.dist("pad/dtype=%s" % case["dtype"])
         ctx.dist("pad/ndim=%d" % len(case["shape"]))
         ctx.dist("pad/widths=%s" % ("asymmetric" if any(b != a for b, a in w) else "symmetric"))
@@ -706,7 +834,13 @@ def gen_rs_case(r, sub=None):
     o8, s8 = gen_meta(r, nd)
     case = {"kind": "rs", "sub": sub, "dtype": dtype, "shape": shape, "data8": d, "data8_im": di, "axes": axes,
             "axes_none": k == nd and axes == list(range(nd)) and r.random() < 0.5,
-            "origin8": o8, "sampling8": s8, "inplace": r.random() < 0.2}
+            "origin8": o8, "sampling8": s8, "inplace": r.random() < 0.2, "cls": gen_cls(r, nd)}
+    if not case["axes_none"]:
+        neg = gen_axes_neg(r, k)
+        if neg:
+            case["axes_neg"] = neg
+            if k == 1 and r.random() < 0.5:
+                case["axes_scalar"] = True            # axes=-1 rather than axes=(-1,)
     if sub == "factors":
         fs = [r.choice([0.5, 1.5, 2.0, 0.3, 1.25, 0.1, 0.75, 2.5, 1.0, 0.9, 1.1, 1 / 3, 0.6]) for _ in axes]
         if r.random() < 0.3:
@@ -727,7 +861,9 @@ def gen_rs_case(r, sub=None):
 
 
 def rs_call(ds, case, a_out=None):
-    axes = None if case.get("axes_none") else tuple(case["axes"])
+    axes = None if case.get("axes_none") else tuple(passed_axes(case))
+    if axes is not None and case.get("axes_scalar"):
+        axes = axes[0]
     kw = {}
     if a_out is not None:
         kw["out_shape"] = tuple(a_out)
@@ -769,7 +905,7 @@ def rs_oracle(case, obs):
     tol = tol_of(case["dtype"])
     if tuple(arr.shape) != want_shape:
         bad.append(("resample-shape", "fourier_resample(%s, axes=%s) of shape %s gives shape %s, expected %s"
-                    % (_rs_args(case), axes, list(a.shape), list(arr.shape), list(want_shape))))
+                    % (_rs_args(case), passed_axes(case), list(a.shape), list(arr.shape), list(want_shape))))
         return bad
     scale = max(1.0, float(np.max(np.abs(a))))
     want = dft_oracle(a, axes, outs)
@@ -837,16 +973,16 @@ def rs_expr(case, obs):
                                           zlist(a.shape), cf_list(a), cf_list(obs["array"]))
 
 
-def rs_correspond(case, obs, v):
+def rs_correspond(case, obs, v, key="resample-correspondence", which="float model"):
     sh, err, mx, head = v
     a = make_array(case)
     if [int(t) for t in sh] != list(obs["array"].shape):
-        return [("resample-correspondence", "shape: implementation %s, model %s" % (list(obs["array"].shape), sh))]
+        return [(key, "shape: implementation %s, %s %s" % (list(obs["array"].shape), which, sh))]
     e = float_of_zz(err)
     scale = max(1.0, float(np.max(np.abs(a))))
     if not e <= tol_of(case["dtype"]) * scale:
-        return [("resample-correspondence", "data: max |implementation - float model| = %.3g (scale %.3g, tolerance %.1e "
-                 "relative)" % (e, scale, tol_of(case["dtype"])))]
+        return [(key, "data: max |implementation - %s| = %.3g (scale %.3g, tolerance %.1e relative)"
+                 % (which, e, scale, tol_of(case["dtype"])))]
     return []
 
 
@@ -886,6 +1022,8 @@ def check_resample(ctx: Ctx):
         outs = rs_outs(case)
         ns = [case["shape"][a] for a in case["axes"]]
         ctx.dist("resample/dtype=%s" % case["dtype"])
+        ctx.dist("resample/class=%s" % (case.get("cls") or "Dataset"))
+        ctx.dist("resample/axes-named=%s" % ("negative" if case.get("axes_neg") else "non-negative"))
         ctx.dist("resample/ndim=%d" % len(case["shape"]))
         ctx.dist("resample/axes=%s" % ("all" if len(ns) == len(case["shape"]) else "subset"))
         ctx.dist("resample/spec=%s" % case["sub"])
@@ -901,6 +1039,18 @@ def check_resample(ctx: Ctx):
     vals = coq_vals(ctx, "rs", PRE_F, exprs, 8)
     mvals = coq_vals(ctx, "rsmeta", PRE_Q, mexprs, 40)
     nd = 0
+    # the STAGE-WISE model (fftn, fftshift, crop/pad, ifftshift, ifftn over all axes at once, one scale: pipeline_nd,
+    # equal to the axis-after-axis model by C06_resample_nd_separable) on the cases with several resampled axes
+    multi = [ci for ci, c in enumerate(cases) if len(c["axes"]) >= 2][: (30 if ctx.quick else 400)]
+    pvals = coq_vals(ctx, "rsnd", PRE_F, [exprs[ci].replace("rs_case ", "ps_case ", 1) for ci in multi], 8) if multi else []
+    for ci, v in zip(multi, pvals):
+        ctx.cov["traces_validated_against_impl"] += 1
+        ctx.dist("resample/stage-wise-model")
+        for key, what in rs_correspond(cases[ci], obs_all[ci], v, "resample-stagewise-correspondence", "stage-wise float model"):
+            nd += 1
+            ctx.cov["disagreements_checked"] += 1
+            ctx.violation(key, "stage-wise N-D model and implementation disagree on Dataset.fourier_resample: " + what,
+                          dict(cases[ci]), found_input=failed[ci])
     for ci, (case, obs, v, mv) in enumerate(zip(cases, obs_all, vals, mvals)):
         ctx.cov["traces_validated_against_impl"] += 2
         for key, what in rs_correspond(case, obs, v) + rsmeta_correspond(case, obs, mv):
